@@ -12,7 +12,10 @@ Supported subset (anything else raises Unsupported, and the obligation that depe
   if <cond>: <assignments only>                 conditional update of locals (no else)
   return <expr> | return <expr>, <expr>
   expressions: names, int/float/bool literals, + - * / unary -, < <= > >= == != (chained), and / or / not,
-               min(a, b), max(a, b), abs(a), p[0], p[1], calls of other translated functions
+               min(a, b), max(a, b), abs(a), p[0], p[1], bool(c), a if c else b, calls of other translated functions
+  tolerated around the functions (so that harmless maintenance edits do not leave the subset): module-level numeric constants (inlined),
+  module-level helper functions that are themselves in the subset (translated too, before their callers), annotated assignments,
+  logging calls as statements (no value)
 Conventions of the output (chosen to coincide with the hand-written models, so that the equivalence lemmas are short):
   a < b -> Qltb a b ; a > b -> Qltb b a ; a <= b -> Qleb a b ; a >= b -> Qleb b a ; == -> Qeqb
   min / max -> pymin / pymax (Python's: the first argument wins a tie) ; integers under |= -> Z with Z.lor
@@ -105,11 +108,15 @@ class Fn:
                 return "(py%s %s %s)" % (f, args[0], args[1])
             if f == "abs" and len(args) == 1:
                 return "(Qabs %s)" % args[0]
+            if f == "bool" and len(args) == 1 and isinstance(e.args[0], (ast.Compare, ast.BoolOp)):
+                return args[0]
             if f in self.known:
                 return "(t_%s %s)" % (f, " ".join(args))
             raise Unsupported("call of %s at line %d" % (f, e.lineno))
         if isinstance(e, ast.Tuple):
             return "(" + ", ".join(self.expr(x) for x in e.elts) + ")"
+        if isinstance(e, ast.IfExp):
+            return "(if %s then %s else %s)" % (self.expr(e.test), self.expr(e.body), self.expr(e.orelse))
         raise Unsupported("%s at line %d" % (type(e).__name__, e.lineno))
 
     def value(self, target, e):
@@ -131,6 +138,11 @@ class Fn:
         s, rest = stmts[0], stmts[1:]
         if isinstance(s, ast.Expr) and isinstance(s.value, ast.Constant) and isinstance(s.value.value, str):
             return self.block(rest)                      # docstring
+        if isinstance(s, ast.Expr) and isinstance(s.value, ast.Call) and ast.unparse(s.value.func).split(".")[0] in ("logger", "logging", "log"):
+            return self.block(rest)                      # a logging call: no value, no effect on the result
+        if isinstance(s, ast.AnnAssign) and s.value is not None and isinstance(s.target, ast.Name):
+            s2 = ast.Assign(targets=[s.target], value=s.value); ast.copy_location(s2, s); ast.fix_missing_locations(s2)
+            return self.block([s2] + rest)
         if isinstance(s, ast.Return):
             if s.value is None:
                 raise Unsupported("bare return at line %d" % s.lineno)
@@ -240,6 +252,17 @@ class FnZQ(Fn):
             return "let %s := (if %s then %s else %s) in %s" % (var, c, b1, b2, self.upd(rest, var))
         raise Unsupported("%s inside a conditional update at line %d" % (type(s).__name__, s.lineno))
 
+    def upd_new(self, stmts, var, lineno):
+        """the value given to the new local `var` by `stmts`, which must end by binding it"""
+        if not stmts or not (isinstance(stmts[-1], ast.Assign) and isinstance(stmts[-1].targets[0], ast.Name) and stmts[-1].targets[0].id == var):
+            raise Unsupported("the 'clear' branch at line %d does not end by binding %s" % (lineno, var))
+        out = ""
+        for a in stmts[:-1]:
+            if not (isinstance(a, ast.Assign) and len(a.targets) == 1 and isinstance(a.targets[0], ast.Name)):
+                raise Unsupported("statement in the 'clear' branch at line %d" % a.lineno)
+            out += "let %s := %s in " % (a.targets[0].id, self.value(a.targets[0].id, a.value))
+        return out + self.value(var, stmts[-1].value)
+
     def block(self, stmts):
         if stmts:
             s, rest = stmts[0], stmts[1:]
@@ -250,14 +273,17 @@ class FnZQ(Fn):
             # if accum == "clear": <bind accum> else: accum = int(accum)
             if isinstance(s, ast.If) and self.is_clear_test(s.test):
                 var = s.test.left.id
-                ok = len(s.orelse) == 1 and isinstance(s.orelse[0], ast.Assign) and ast.unparse(s.orelse[0]) == "%s = int(%s)" % (var, var)
+                # else: <target> = int(accum)   - the target is the argument itself or a new local (bound in the other branch too)
+                ok = len(s.orelse) == 1 and isinstance(s.orelse[0], ast.Assign) and isinstance(s.orelse[0].targets[0], ast.Name) \
+                    and ast.unparse(s.orelse[0].value) == "int(%s)" % var
                 if not ok:
                     raise Unsupported("else branch of the 'clear' test at line %d" % s.lineno)
+                tgt = s.orelse[0].targets[0].id
                 saved = (set(self.zenv), set(self.qenv))
-                body = self.upd(s.body, var)
+                body = self.upd(s.body, tgt) if tgt == var else self.upd_new(s.body, tgt, s.lineno)
                 self.zenv, self.qenv = saved
-                self.zenv.add(var)
-                return "let %s := match %s with None => %s | Some %s => %s end in\n  %s" % (var, var, body, var, var, self.block(rest))
+                self.zenv.add(tgt)
+                return "let %s := match %s with None => %s | Some %s => %s end in\n  %s" % (tgt, var, body, var, var, self.block(rest))
             # v -= <expr> / v += <expr>
             if isinstance(s, ast.AugAssign) and isinstance(s.op, (ast.Sub, ast.Add)) and isinstance(s.target, ast.Name):
                 e = ast.BinOp(left=ast.Name(id=s.target.id, ctx=ast.Load()), op=s.op, right=s.value)
@@ -270,6 +296,20 @@ class FnZQ(Fn):
                 c = self.expr(s.test)
                 if v in self.qenv:
                     return "let %s := if %s then (%s)%%Q else %s in\n  %s" % (v, c, self.eq(s.body[0].value), v, self.block(rest))
+            # if <cond>: <assignments / nested ifs binding one local> [else: ...]   with no return inside: conditional update of that local
+            if isinstance(s, ast.If) and not any(isinstance(n, ast.Return) for n in ast.walk(s)):
+                assigned = set()
+                for n in ast.walk(s):
+                    if isinstance(n, ast.Assign) and len(n.targets) == 1 and isinstance(n.targets[0], ast.Name): assigned.add(n.targets[0].id)
+                    elif isinstance(n, (ast.Assign, ast.AugAssign, ast.AnnAssign)): assigned.add(None)
+                if len(assigned) == 1 and None not in assigned:
+                    v = next(iter(assigned))
+                    if v in self.zenv or v in self.qenv:
+                        was_z = v in self.zenv
+                        term = self.upd([s], v)
+                        if (v in self.zenv) != was_z:
+                            raise Unsupported("a conditional update changes the kind (integer / rational) of %s at line %d" % (v, s.lineno))
+                        return "let %s := %s in\n  %s" % (v, term, self.block(rest))
         return Fn.block(self, stmts)
 
     def is_z(self, e):
@@ -371,6 +411,8 @@ class FnZQ(Fn):
             return "true" if e.value else "false"
         if isinstance(e, ast.Tuple):
             return "(" + ", ".join(self.expr(x) for x in e.elts) + ")"
+        if isinstance(e, ast.IfExp):
+            return "(if %s then %s else %s)" % (self.expr(e.test), self.expr(e.body), self.expr(e.orelse))
         return self.ez(e) if self.is_z(e) else "(%s)%%Q" % self.eq(e)
 
     def value(self, target, e):
@@ -383,14 +425,58 @@ class FnZQ(Fn):
         return term
 
 
+BUILTINS = {"min", "max", "abs", "int", "round", "bool", "float"}
+
+def _const_value(e, consts):
+    """value of a module-level numeric constant expression (literals, earlier constants, + - * ** and unary minus), or None"""
+    if isinstance(e, ast.Constant) and isinstance(e.value, (int, float)) and not isinstance(e.value, bool): return e.value
+    if isinstance(e, ast.Name) and e.id in consts: return consts[e.id]
+    if isinstance(e, ast.UnaryOp) and isinstance(e.op, ast.USub):
+        v = _const_value(e.operand, consts); return None if v is None else -v
+    if isinstance(e, ast.BinOp) and isinstance(e.op, (ast.Add, ast.Sub, ast.Mult, ast.Pow)):
+        a, b = _const_value(e.left, consts), _const_value(e.right, consts)
+        if a is None or b is None: return None
+        if isinstance(e.op, ast.Pow):
+            return a ** b if isinstance(a, int) and isinstance(b, int) and 0 <= b <= 64 else None
+        return a + b if isinstance(e.op, ast.Add) else a - b if isinstance(e.op, ast.Sub) else a * b
+    return None
+
+class _Inline(ast.NodeTransformer):
+    """module-level numeric constants read inside a function become literals (unless the function binds the name itself)"""
+    def __init__(self, consts, local): self.consts, self.local = consts, local
+    def visit_Name(self, n):
+        if isinstance(n.ctx, ast.Load) and n.id in self.consts and n.id not in self.local:
+            return ast.copy_location(ast.Constant(value=self.consts[n.id]), n)
+        return n
+
 def translate(path, names, mode="q"):
     tree = ast.parse(open(path).read(), path)
     found = {n.name: n for n in tree.body if isinstance(n, ast.FunctionDef)}
+    # module-level numeric constants, assigned exactly once
+    consts, seen = {}, {}
+    for st in tree.body:
+        if isinstance(st, ast.Assign) and len(st.targets) == 1 and isinstance(st.targets[0], ast.Name):
+            seen[st.targets[0].id] = seen.get(st.targets[0].id, 0) + 1
+            v = _const_value(st.value, consts)
+            if v is not None: consts[st.targets[0].id] = v
+    consts = {k: v for k, v in consts.items() if seen.get(k) == 1}
+    # helper functions of the module called from the requested ones (transitively): translated too, before their callers
+    order = []
+    def need(name, stack=()):
+        if name in order: return
+        if name in stack: raise Unsupported("recursive helper %s" % name)
+        if name not in found: raise Unsupported("function %s not found in %s" % (name, path))
+        for c in ast.walk(found[name]):
+            if isinstance(c, ast.Call) and isinstance(c.func, ast.Name) and c.func.id in found and c.func.id != name and c.func.id not in BUILTINS:
+                need(c.func.id, stack + (name,))
+        order.append(name)
+    for name in names: need(name)
     out = []
-    for name in names:
-        if name not in found:
-            raise Unsupported("function %s not found in %s" % (name, path))
-        out.append((Fn if mode == "q" else FnZQ)(found[name], set(names)).definition())
+    for name in order:
+        node = found[name]
+        local = {a.arg for a in node.args.args} | {n.id for n in ast.walk(node) if isinstance(n, ast.Name) and isinstance(n.ctx, ast.Store)}
+        node = ast.fix_missing_locations(_Inline(consts, local).visit(node))
+        out.append((Fn if mode == "q" else FnZQ)(node, set(order)).definition() + "\n#[local] Hint Unfold t_%s : kernels." % name)
     return "\n\n".join(out) + "\n"
 
 
